@@ -1,7 +1,10 @@
 package main
 
 import (
+	"fmt"
 	"math/rand"
+	"net/http"
+	"net/http/httptest"
 
 	"github.com/Query-farm/vgi-rpc-go/vgirpc"
 )
@@ -16,6 +19,50 @@ type c28In struct {
 	CSec   string `json:"csec"`
 	DCID   string `json:"dcid"`
 	DCSec  string `json:"dcsec"`
+	// Via401: the header is taken from a real 401 of an HttpServer configured with this metadata whose
+	// authenticator rejects with this reason class and free-text detail (the challenge must parse back to the
+	// advertised values whatever the rejection says)
+	Via401 string `json:"via401,omitempty"` // "" | missing | invalid | expired | scope | permission | plain
+	Detail string `json:"detail,omitempty"`
+}
+
+const c28E2EURL = "https://api.example.com/.well-known/oauth-protected-resource/vgi"
+
+var c28Details = []string{"", "signature mismatch", `token "abc" expired`, `unexpected '"' at offset 3 of token`, `scope 5" rejected`,
+	`a, client_id="evil"`, `x", client_secret="s`, "back\\slash\"", "comma, separated, words", `client_id=`, "tab\tnl\n", `""`, `"`}
+
+func c28Emit401(in c28In) string {
+	h := vgirpc.NewHttpServer(vgirpc.NewServer())
+	var authErr error
+	switch in.Via401 {
+	case "missing":
+		authErr = vgirpc.NewAuthFailure(vgirpc.AuthReasonMissingCredential, in.Detail)
+	case "invalid":
+		authErr = vgirpc.NewAuthFailure(vgirpc.AuthReasonInvalidCredential, in.Detail)
+	case "expired":
+		authErr = vgirpc.NewAuthFailure(vgirpc.AuthReasonExpiredCredential, in.Detail)
+	case "scope":
+		authErr = vgirpc.NewAuthFailure(vgirpc.AuthReasonInsufficientScope, in.Detail)
+	case "permission":
+		authErr = &vgirpc.RpcError{Type: "PermissionError", Message: in.Detail}
+	default:
+		authErr = &vgirpc.RpcError{Type: "ValueError", Message: in.Detail}
+	}
+	h.SetAuthenticate(func(*http.Request) (*vgirpc.AuthContext, error) { return nil, authErr })
+	m := &vgirpc.OAuthResourceMetadata{Resource: "https://api.example.com/vgi", AuthorizationServers: []string{"https://auth.example.com"},
+		ClientID: in.CID, UseIDTokenAsBearer: in.Flag, ClientSecret: in.CSec, DeviceCodeClientID: in.DCID, DeviceCodeClientSecret: in.DCSec}
+	if err := h.SetOAuthResourceMetadata(m); err != nil {
+		return "SETUP-ERROR: " + err.Error()
+	}
+	req := httptest.NewRequest("POST", "/test_method", nil)
+	req.Header.Set("Content-Type", "application/vnd.apache.arrow.stream")
+	req.Header.Set("Authorization", "Bearer x")
+	w := httptest.NewRecorder()
+	h.ServeHTTP(w, req)
+	if w.Code != http.StatusUnauthorized {
+		return fmt.Sprintf("NOT-401: %d", w.Code)
+	}
+	return w.Header().Get("WWW-Authenticate")
 }
 
 const c28IDChars = "ABCXYZabcxyz0189-._~"
@@ -83,7 +130,19 @@ func c28Gen(r *rand.Rand, n int, tier string) []c28In {
 			}
 		}
 	}
+	// the challenge as a real 401 emits it, for every rejection class and details that contain quotes, commas
+	// and parameter-like text
+	for _, via := range []string{"missing", "invalid", "expired", "scope", "permission", "plain"} {
+		for _, d := range c28Details {
+			out = append(out, c28In{URL: c28E2EURL, CID: "primary-client", CSec: "primary.secret~1", DCID: "device-client", DCSec: "device_secret-2", Flag: len(out)%2 == 0, Via401: via, Detail: d})
+		}
+	}
 	for len(out) < n {
+		if r.Intn(10) == 0 {
+			out = append(out, c28In{URL: c28E2EURL, CID: c28ID(r), CSec: c28ID(r), DCID: c28ID(r), DCSec: c28ID(r), Flag: r.Intn(2) == 0,
+				Via401: []string{"missing", "invalid", "expired", "scope", "permission", "plain"}[r.Intn(6)], Detail: c28Details[r.Intn(len(c28Details))]})
+			continue
+		}
 		if r.Intn(8) == 0 { // random coincidences
 			id, sec := c28ID(r), c28ID(r)
 			in := c28In{URL: c28URL(r), CID: id, CSec: sec, DCID: id, DCSec: sec, Flag: r.Intn(2) == 0}
@@ -125,6 +184,10 @@ func c28Run(in c28In) CaseOut {
 		m := &vgirpc.OAuthResourceMetadata{ClientID: in.CID, UseIDTokenAsBearer: in.Flag, ClientSecret: in.CSec,
 			DeviceCodeClientID: in.DCID, DeviceCodeClientSecret: in.DCSec}
 		h = vgirpc.VerifBuildWWWAuthenticate(in.URL, m)
+		if in.Via401 != "" {
+			h = c28Emit401(in)
+			tags = append(tags, "via-401", "reject-"+in.Via401)
+		}
 		coqIn = App("C28.Build", B(in.URL), App("C28.Build_meta", B(in.CID), Bool(in.Flag), B(in.CSec), B(in.DCID), B(in.DCSec)))
 		tags = append(tags, "build")
 		if in.CID == "" && in.DCID != "" {
